@@ -3,9 +3,9 @@
 dir="$1"; pre="$2"
 for o in "$dir"/C*.out; do
   p=$(basename "$o" .out)
-  for v in A B; do
+  for v in A B C; do
     [ -f "$o/$v/patch.diff" ] || continue
-    id="$pre-$p$(echo $v | tr AB ab)"
+    id="$pre-$p$(echo $v | tr ABC abc)"
     [ -d /verif/seeded/$id ] && continue
     [ -f "$o/$v/.rejected" ] && continue
     /verif/tools/confirm_mutant.sh "$id" "$o/$v" "$p" 2>&1 | tail -2
